@@ -69,7 +69,10 @@ def eval_points(rng, c, outside=True):
     inside = sorted(pts)
     out = []
     if outside:
-        out = [round(lo - 1e-6, 7), round(hi + 1e-6, 7), lo - 0.5, hi + 300.0, 0.0, -5.0, lo / 2]
+        import math
+        out = [round(lo - 1e-6, 7), round(hi + 1e-6, 7), lo - 0.5, hi + 300.0, 0.0, -5.0, lo / 2,
+               # the nearest representable temperatures outside, and slivers a relative tolerance would let through
+               math.nextafter(lo, -math.inf), math.nextafter(hi, math.inf), hi * (1 + 1e-12), lo * (1 - 1e-12), hi + 1e-8, lo - 1e-8]
         out = [T for T in out if T < lo or T > hi]
     return inside, out
 
